@@ -31,7 +31,7 @@ theorem sublist_flatMap {α β : Type} (f : α → List β) {l₁ l₂ : List α
 
 /-- if `e` is the only element of a duplicate-free list satisfying `p`, popping the first match
     is erasing `e` -/
-theorem eraseP_eq_erase_of_unique {α : Type} [DecidableEq α] (p : α → Bool) (e : α) :
+theorem eraseP_eq_erase_of_unique {α : Type} [BEq α] [LawfulBEq α] (p : α → Bool) (e : α) :
     ∀ (l : List α), p e = true → (∀ x ∈ l, p x = true → x = e) → l.eraseP p = l.erase e
   | [], _, _ => by simp
   | a :: l, he, hu => by
@@ -97,5 +97,37 @@ theorem find?_eraseP_of_disjoint {α : Type} (p q : α → Bool) :
       simp [hp, hq]
     · have hp' : p a = false := by simpa using hp
       simp only [eraseP_cons, hp', cond_false, find?_cons, ih]
+
+/-- popping the first match erases (the first occurrence of) the element `find?` returns -/
+theorem eraseP_eq_erase_of_find {α : Type} [BEq α] [LawfulBEq α] (p : α → Bool) (x : α) :
+    ∀ (l : List α), l.find? p = some x → l.eraseP p = l.erase x
+  | [], h => by simp at h
+  | a :: l, h => by
+    have hpx := find?_some h
+    simp only [find?_cons] at h
+    by_cases hpa : p a = true
+    · simp only [hpa, Option.some.injEq] at h
+      subst h
+      simp [hpa]
+    · have hpa' : p a = false := by simpa using hpa
+      simp only [hpa'] at h
+      have hne : a ≠ x := fun h' => hpa (h' ▸ hpx)
+      rw [eraseP_cons, hpa', cond_false, erase_cons_tail (by simpa using hne),
+        eraseP_eq_erase_of_find p x l h]
+
+theorem nodup_of_nodup_map {α β : Type} (f : α → β) {l : List α} (h : (l.map f).Nodup) :
+    l.Nodup := by
+  unfold Nodup at *
+  rw [pairwise_map] at h
+  exact h.imp (fun {a b} hab hEq => hab (by rw [hEq]))
+
+theorem map_inj_of_injective {α β : Type} (f : α → β) (hf : ∀ a b, f a = f b → a = b) :
+    ∀ (l₁ l₂ : List α), l₁.map f = l₂.map f → l₁ = l₂
+  | [], [], _ => rfl
+  | [], _ :: _, h => by simp at h
+  | _ :: _, [], h => by simp at h
+  | a :: l₁, b :: l₂, h => by
+    simp only [map_cons, cons.injEq] at h
+    rw [hf a b h.1, map_inj_of_injective f hf l₁ l₂ h.2]
 
 end Aiorpcx.C01
